@@ -11,7 +11,7 @@ import numpy as np
 
 ID = 'C07'
 DRIVER = 'C07'
-LEAN_TARGETS = ['IblVerif.Properties.C07']
+LEAN_TARGETS = ['IblVerif.Properties.C07']          # the tie module IblVerif.Tie.C07 is built by harness/ties.py
 THEOREMS = [
     'IblVerif.FShift.fshiftAt_twosided',
     'IblVerif.C07.fshift_short_rejected',
@@ -31,6 +31,24 @@ THEOREMS = [
     'IblVerif.C07.argmax_first_max',
     'IblVerif.C07.parabolic_max_exact_vertex',
     'IblVerif.C07.parabolic_max_edge',
+    # round h
+    'IblVerif.C07.fshift_plan',
+    'IblVerif.C07.fshift_freq_eq_time',
+    'IblVerif.C07.fshift_freq_shape',
+    'IblVerif.C07.fshift_freq_add',
+    'IblVerif.C07.fshift_nd_pertrace',
+    'IblVerif.C07.fshift_nd_one_dim',
+    'IblVerif.C07.fshift_nd_two_dim_rows',
+    'IblVerif.C07.fshift_nd_two_dim_cols',
+    'IblVerif.C07.fshift_inverse_defect',
+    'IblVerif.C07.fshift_inverse',
+    'IblVerif.C07.fshift_add_iff',
+    'IblVerif.C07.fshift_inverse_counterexample',
+    'IblVerif.C07.parabolic_max_rows',
+    'IblVerif.C07.parabolic_max_matrix',
+    'IblVerif.C07.corrmax_integer_delay',
+    'IblVerif.C07.corrmax_correlation',
+    'IblVerif.C07.autocorrelation_peak',
 ]
 RULE = ('fshift: every length n = 2..256 (thorough: every n <= 512, all primes < 300 included, plus sampled lengths up to 2048 incl. '
         'powers of two and primes) x a shift class (integer in (-n, n) incl. 0 and +-(n-1), integer with |m| >= n, uniform fractional in '
@@ -42,7 +60,16 @@ RULE = ('fshift: every length n = 2..256 (thorough: every n <= 512, all primes <
         'neuropixel.adc_shifts k/13 and k/16 incl. 384 traces, tiled random fractions, all-equal e.g. 1/3) or of the wrong size; error branches (n < 2, axis out of range, per-trace vector of the wrong size); np.roll vs the model roll '
         '(bit exact); scipy rfft/irfft vs their model sums on random complex half spectra; parabolic_max on integer-valued (bit exact) '
         'and random arrays incl. edge maxima, ties, plateaus, the 2-D branch; numeric oracle of the delay estimate on Ricker/Morlet '
-        'wavelets. A case is non-trivial when the shift is non-zero and the signal is not constant; distinct by its description.')
+        'wavelets. Round h: arrays of 1..4 dimensions (<= 360 samples, extent 2..12 along the shift axis) x every axis, positive and negative, x '
+        'scalar / per-trace (distinct, integer, repeated ADC-like, wrong size) shifts given flat, in the broadcast shape or in the shape of the other '
+        'axes x six memory layouts, vs the twin of fshiftND (and the twins of fshift1 / fshift2 bit for bit on 1-D / 2-D inputs); the '
+        'frequency-domain entry point fshift(rfft(x), s, ns=n) for n = 2..40, 63..65, 96, 127, 128 in complex128 / complex64, three call '
+        'spellings, declared lengths that do not fit the number of bins, vs the twin of fshiftFreq1 and vs the time-domain call; the 2-D branch of '
+        'parabolic_max (1..6 rows x 1..9 columns; integer-valued, planted edge maxima, ties, NaN samples, random) vs the twin of parabolicMax2 and '
+        'row by row vs the 1-D branch; scipy.signal.correlate(mode=same) vs the defining sum; wave_shift_corrmax vs the twin of waveShiftCorrmax on '
+        'integer-valued compactly supported waveforms of 5..40 samples delayed by a whole number of samples without wrapping (estimate = delay '
+        'demanded to 1e-9) and on random short traces; the stage list of the tie executed by the model interpreter vs the twin of fshiftCore. '
+        'A case is non-trivial when the shift is non-zero and the signal is not constant; distinct by its description.')
 ASSUMPTIONS = [
     'input FORMS are drawn independently of the values and tagged: data layout C / Fortran / strided view / negative-stride view / read-only; '
     'scalar shift as Python float, int, np.float64, np.float32, np.int64, np.int16, 0-d array (per-trace path) ; per-trace vector as float64, '
@@ -64,7 +91,20 @@ ASSUMPTIONS = [
     'delay estimation (wave_shift_corrmax / shift_waveform) is NUMERIC ONLY (partial): oracle domain Ricker wavelets of width 2..n/16 '
     'samples and Morlet (w=5) of width 5..n/16, centred, |shift| <= n/8, n in 64..512; tolerance 0.05 sample on the estimate '
     '(measured <= 0.019), 0.06 of the peak amplitude on the re-aligned copy (measured <= 0.021)',
-    'real-valued input only (the complex frequency-domain input path of fshift, `ns=`, is outside the property); dtypes float32/float64',
+    'the property is about real-valued input in float32/float64. The frequency-domain entry point (complex half spectrum + ns=) is checked only '
+    'through what it means for the real path: fshift(rfft(x), s, ns=n) is compared with the model of the phase-ramp multiplication and its inverse '
+    'transform with the time-domain call fshift(x, s); the complex input is passed as a copy (the code multiplies it in place; only a REAL input is '
+    'required to stay untouched); the imaginary part of the Nyquist bin of the returned spectrum is not compared (np.angle(-1 +- 0j) = +-pi by the '
+    'sign of a floating-point zero; every inverse real transform discards it) and, for the same reason, a declared even ns that differs from the '
+    'true length while fitting the number of bins is not generated; which exception rejects an ill-fitting ns is not compared',
+    'N-d arrays: empty arrays (an extent 0) are not generated; the per-trace vector is given as an ndarray whose size is the number of traces, in any '
+    'shape NumPy can reshape to the broadcast shape (flat, broadcast shape, shape of the other axes)',
+    'vectorised parabolic_max: finite or NaN samples (np.argmax treats NaN as the maximum; the Float twin uses the same order); infinite samples are '
+    'not generated (0.5 * M @ v multiplies the zero matrix entries with them: 0 * inf = NaN, which the model, written without the zero terms, '
+    'does not reproduce - no statement of the property is about infinite samples)',
+    'wave_shift_corrmax vs its model: compared when the two largest correlation values differ by more than 1e-9 relative and the peak is not flat '
+    '(otherwise argmax / the parabola are decided by rounding); tolerance 1e-7 on the shift, 1e-6 n max|x| on the re-aligned copy; on the '
+    'theorem domain (integer-valued compact waveform, whole-sample delay, no wrap, interior peak) estimate = delay and copy = waveform to 1e-9',
     'parabolic_max random-float cases are compared with tolerance 1e-9 (NumPy matmul summation order is not modelled) and only when the '
     'curvature is not tiny; integer-valued cases are compared bit for bit',
 ]
@@ -73,22 +113,41 @@ TRUSTED = [
     'and Nyquist bins (compared numerically each run on random complex half spectra, tolerance 1e-12)',
     'np.angle = Complex.arg, np.exp(1j t) = cos t + i sin t, np.roll(x, m)[t] = x[(t - m) mod n] (roll compared bit for bit each run)',
     'NumPy in-place `complex64 *= complex128` and float32 FFTs are not modelled bit for bit (tolerance comparison)',
-    'scipy.signal.correlate and np.nanmedian (delay estimation) are not modelled: oracle only',
+    'scipy.signal.correlate(a, b, mode="same")[j] = sum_t a[t + j - n//2] b[t] for equal lengths (external; compared with the model sum each run, '
+    'tolerance 1e-9); np.nanmedian / find_peak / get_array_peak inside shift_waveform are not modelled: oracle only',
+    'tie (harness/tiespecs/c07.py): the translator harness/pyfn2lean.py, the regular expressions that name the stages, and the per-item '
+    'assumptions that select a decision path (do_fft, np.isscalar(s), x.ndim == 1); `ns = ns or w.shape[axis]` is read as "ns is the length '
+    'of the trace" (the `or` default itself is exercised only by the correspondence run)',
 ]
 LEVEL_TEXT = ('Lean 4 theorems (Mathlib ZMod.dft) for every real trace of every length >= 2 and every real shift about the SAME generic '
               'definitions the driver executes at Float: the rfft/irfft pipeline equals the two-sided operator F^-1(mu_s F x); integer shift = '
               'np.roll (all m in Z); zero shift = identity; shape; composition with its exact defect X_{n/2} sin(pi a) sin(pi b) (-1)^t / n and '
               'hence additivity for odd n / an integer shift / no Nyquist energy, with the F13 counterexample; band-limited trigonometric '
               'polynomials are delayed analytically for every real s; linearity and the impulse-basis decomposition; per-trace shifts along '
-              'either axis; error branches; parabolic_max: argmax = first maximum, exact vertex of a parabola, edge fallback. The model is tied '
-              'to fshift / parabolic_max by a differential run over all lengths 2..256 in both dtypes.')
-LEVEL_NOTE = ('PARTIAL: the accuracy of the delay estimate (wave_shift_corrmax, shift_waveform: "within a few hundredths of a sample", '
-              're-alignment) is only checked numerically by a calibrated oracle, not proved. Shape/dtype preservation of the NumPy call and '
-              '"real input untouched" are interface facts checked on every case, not theorems. Trusted: Lean kernel + Mathlib, the defining '
-              'sums of scipy rfft/irfft (checked numerically), the Float-vs-real tolerance comparison, the Python harness.')
-TECHNIQUE = ('Lean 4 + Mathlib proof over ZMod.dft (shift theorem, Hermitian half-spectrum bookkeeping, character orthogonality) about a '
-             'scalar-generic model; executable Float twin of the same definitions compared with the real code under a tolerance; '
-             'numeric oracle (partial) for delay estimation')
+              'either axis; error branches; parabolic_max: argmax = first maximum, exact vertex of a parabola, edge fallback. Round h: every '
+              'trace of an array of ANY dimension along ANY axis (negative axes, error branches) receives its own shift (fshiftND; = fshift1 on 1-D, = fshift2 on 2-D); '
+              'the time-domain call = inverse transform of the frequency-domain call, and in the frequency domain shifts add up for every length; a '
+              'shift is undone by the opposite shift with the exact defect X_{n/2} sin^2(pi a) (-1)^t / n, and successive shifts add up IF AND ONLY IF '
+              'n is odd or a shift is whole or X_{n/2} = 0 (F13 is exactly the complement); the vectorised parabolic_max is the 1-D function on every '
+              'row and its interpolation is 0.5 * [[1,-2,1],[-1,0,1],[0,2,0]]; wave_shift_corrmax (correlate(same) -> parabolic_max -> '
+              '-(ipeak - n//2) -> fshift) returns EXACTLY (x, m) for a whole-sample non-wrapping delay m of any non-zero waveform (autocorrelation '
+              'peak lemma). Two ties: a differential run over all lengths 2..256 in both dtypes (+ N-d, frequency-domain, vectorised, delay-estimate '
+              'cases), and the translator tie: the stage list of fshift on its three decision paths, shape[axis] / s_shape[axis], the positions / '
+              'matrix / edge tests of parabolic_max and the peak-to-shift expression of wave_shift_corrmax are re-translated from the source on '
+              'every run and proved equal to the model definitions; executing the translated stage list with the model primitives IS fshiftCore '
+              '(theorem fshift_plan).')
+LEVEL_NOTE = ('PARTIAL: the delay estimate is proved exact only for whole-sample, non-wrapping delays (corrmax_integer_delay); for FRACTIONAL '
+              'delays its accuracy ("within a few hundredths of a sample", re-alignment) and all of shift_waveform (nanmedian template, peak '
+              'channel) are only checked numerically by a calibrated oracle. Dtype preservation of the NumPy call and "real input untouched" are '
+              'interface facts checked on every case, not theorems. The translator tie covers integer / decision / stage-order skeletons only '
+              '(not the array arithmetic: np.angle, np.exp, the broadcast, astype); of shift_waveform only the per-spike loop (one estimate and one '
+              'fshift of the spike\'s own traces per spike, in order) is tied, its template / peak-channel logic is not modelled. The N-d model is proved to agree with fshift1 (equality) and with fshift2 (trace by '
+              'trace, both axes); the Float twins are also compared bit for bit on every 1-D / 2-D case of the run. Trusted: Lean kernel + Mathlib, the defining sums of '
+              'scipy rfft/irfft/correlate (checked numerically), the Float-vs-real tolerance comparison, the Python harness, the translator.')
+TECHNIQUE = ('Lean 4 + Mathlib proof over ZMod.dft (shift theorem, Hermitian half-spectrum bookkeeping, character orthogonality) and finsum '
+             '(autocorrelation peak) about a scalar-generic model; executable Float twin of the same definitions compared with the real code '
+             'under a tolerance; translator tie (integer / stage-order skeleton of fshift, parabolic_max, wave_shift_corrmax regenerated from the '
+             'source and proved equal to the model on every run); numeric oracle (partial) for fractional delay estimation')
 
 TOL64 = 1e-9
 TOL32 = 1e-5
@@ -211,8 +270,10 @@ VECTOR_FORMS = ('f64', 'f32', 'int64', 'int16', 'readonly', 'strided', 'col', 'r
 def layout_array(a, layout):
     """the same values in another memory layout"""
     a = np.asarray(a)
-    if layout == 'F' and a.ndim == 2:
+    if layout == 'F' and a.ndim >= 2:
         return np.asfortranarray(a)
+    if layout == 'permuted' and a.ndim >= 2:          # a non-contiguous view whose strides are a rotation of the C strides
+        return np.moveaxis(np.ascontiguousarray(np.moveaxis(a, 0, -1)), -1, 0)
     if layout == 'strided':
         big = np.full(tuple(2 * d for d in a.shape), 99, dtype=a.dtype)
         sl = tuple(slice(None, None, 2) for _ in a.shape)
@@ -988,13 +1049,435 @@ def _corr_delay(ctx):
              f'error = {worst_re:.4f} of the peak (tolerance {REALIGN_TOL}); shift_waveform: worst deviation {wc:.4f}, worst spread {ws:.4f}')
 
 
+# ---------------------------------------------------------------------------------------------
+# round h: arrays of any dimension, the frequency-domain entry point, vectorised parabolic_max, the delay estimate as a model
+# ---------------------------------------------------------------------------------------------
+LAYOUTS_ND = ('C', 'F', 'strided', 'negstride', 'readonly', 'permuted')
+ND_MODES = ('scalar', 'pertrace', 'pertrace_int', 'repeat', 'wrongsize')
+ND_SSHAPES = ('flat', 'shaped', 'squeezed')
+
+
+def build_nd(c):
+    """(w float64 with float32-representable samples, shift object as given to fshift, flat shift values or scalar) from the
+    generator parameters of an N-d case"""
+    r = np.random.default_rng([c['seed'], 1207])
+    shape = tuple(c['shape'])
+    ndim = len(shape)
+    w = (r.standard_normal(shape) * float(r.choice([1.0, 20.0]))).astype(np.float32).astype(np.float64)
+    if r.random() < 0.25:
+        w = np.round(w)
+    ax = c['axis'] % ndim if -ndim <= c['axis'] < ndim else None
+    if ax is None:
+        return w, float(r.uniform(-2, 2)), None
+    n = shape[ax]
+    ntr = int(np.prod(shape)) // max(n, 1)
+    mode = c['mode']
+    if mode == 'scalar':
+        s = float(r.choice([r.uniform(-n, n), float(r.integers(-n, n + 1)), 0.5, -1 / 3]))
+        return w, s, s
+    if mode == 'pertrace':
+        s = r.uniform(-max(n, 1), max(n, 1), size=ntr)
+    elif mode == 'pertrace_int':
+        s = r.integers(-n, n + 1, size=ntr).astype(float)
+    elif mode == 'repeat':
+        s = repeated_shifts(r, str(r.choice(['adc', 'repeat', 'allequal'])), max(ntr, 2), n)[:ntr]
+    else:
+        s = r.uniform(-1, 1, size=ntr + int(r.choice([1, 2, -1]) if ntr > 1 else 1))
+        return w, s, s
+    ss = list(shape); ss[ax] = 1
+    if c['sshape'] == 'shaped':
+        so = s.reshape(ss)
+    elif c['sshape'] == 'squeezed':
+        so = s.reshape([d for k, d in enumerate(shape) if k != ax] or [1])
+    else:
+        so = s
+    return w, so, s
+
+
+def _cases_nd(ctx):
+    rng = ctx.rng
+    out = []
+    for _ in range(ctx.n(150, 1200)):
+        ndim = int(rng.choice([3, 3, 3, 4, 2, 1]))
+        n = int(rng.integers(2, 13))
+        shape = [int(rng.integers(1, 5)) for _ in range(ndim)]
+        ax = int(rng.integers(0, ndim))
+        shape[ax] = n
+        while int(np.prod(shape)) > 360:
+            k = int(np.argmax([d if i != ax else 0 for i, d in enumerate(shape)]))
+            shape[k] = max(1, shape[k] - 1)
+        axis = ax if rng.random() < 0.5 else ax - ndim
+        mode = str(rng.choice(ND_MODES, p=[.2, .35, .15, .22, .08]))
+        out.append({'op': 'fshiftnd', 'shape': shape, 'axis': axis, 'mode': mode, 'sshape': str(rng.choice(ND_SSHAPES)),
+                    'seed': int(rng.integers(0, 2 ** 31)), 'layout': str(rng.choice(LAYOUTS_ND)), 'call': str(rng.choice(CALLS))})
+    # error branches: axis the array does not have, an axis of extent 1
+    for shape, axis in (([2, 3, 4], 3), ([2, 3, 4], -4), ([3, 1, 4], 1), ([3, 1, 4], -2), ([1, 1, 1], 0), ([2, 2], 2)):
+        out.append({'op': 'fshiftnd', 'shape': shape, 'axis': axis, 'mode': 'scalar', 'sshape': 'flat', 'seed': 11, 'layout': 'C', 'call': 'kw'})
+    return out
+
+
+def _corr_nd(ctx):
+    """fshift on arrays of 1..4 dimensions along every axis (positive and negative), scalar and per-trace shifts (the vector given
+    flat, in the broadcast shape, or in the shape of the other axes), several memory layouts, both dtypes: the real code vs the
+    Float twin of `fshiftND`.  On 1-D / 2-D cases the twin of `fshiftND` is also compared bit for bit with the twins of
+    `fshift1` / `fshift2` (consistency of the three models; `fshift_nd_one_dim` proves the 1-D half)."""
+    cases = _cases_nd(ctx)
+    lines, costs, built = [], [], []
+    for c in cases:
+        w, s_obj, s_flat = build_nd(c)
+        kind, sb = ('S', _bits(s_flat if s_flat is not None else s_obj)) if not isinstance(s_obj, np.ndarray) else ('V', _bits(np.ravel(s_flat)))
+        lines.append(f'fshiftnd {",".join(map(str, c["shape"]))} {c["axis"]} {kind} {sb} {_bits(w.ravel())}')
+        n = c['shape'][c['axis'] % len(c['shape'])] if -len(c['shape']) <= c['axis'] < len(c['shape']) else 1
+        costs.append(n * int(np.prod(c['shape'])))
+        built.append((c, w, s_obj, kind, sb))
+    extra, extra_of = [], {}
+    for k, (c, w, s_obj, kind, sb) in enumerate(built):          # the older 1-D / 2-D models on the same input
+        if len(c['shape']) == 1:
+            extra_of[k] = len(extra); extra.append(f'fshift1 {c["axis"]} {kind} {sb} {_bits(w)}')
+        elif len(c['shape']) == 2:
+            extra_of[k] = len(extra); extra.append(f'fshift2 {c["shape"][1]} {c["axis"]} {kind} {sb} {_rows_bits(w)}')
+    ans = _lean_parallel(ctx, lines + extra, costs + [1] * len(extra))
+    ans, ans_extra = ans[:len(lines)], ans[len(lines):]
+    worst = 0.0
+    for k, ((c, w, s_obj, kind, sb), a) in enumerate(zip(built, ans)):
+        shape = tuple(c['shape'])
+        res = _run_impl(w, s_obj, c['axis'], purity=1 if k % 3 == 0 else 0, form={'layout': c['layout'], 'call': c['call']})
+        dec = (lambda tok, shape=shape: _dec(tok).reshape(shape))
+        impl_s, model_s = _compare_numeric(res, a, w, dec)
+        if res[0] == 'ok' and a.startswith('ok '):
+            worst = max(worst, float(np.max(np.abs(res[1] - dec(a[3:])), initial=0.0)) / max(1.0, float(np.max(np.abs(w)))))
+        ax = c['axis']
+        ctx.compare('fshiftnd', dict(c), impl_s, model_s, nontrivial=True,
+                    tags=('fshiftnd', f'ndim={len(shape)}', 'axis:' + ('neg' if ax < 0 else 'pos') + ('=last' if ax in (-1, len(shape) - 1) else '=first' if ax in (0, -len(shape)) else '=middle'),
+                          'nd mode:' + c['mode'], 'nd s:' + c['sshape'], 'nd layout:' + c['layout'], 'result:' + ('err' if res[0].startswith('err') else 'ok')))
+        if k in extra_of:
+            b = ans_extra[extra_of[k]]
+            same = (a == b) if len(shape) == 1 or not a.startswith('ok ') else (a.startswith('ok ') and b.startswith('ok ') and
+                                                                                 np.array_equal(_dec(a[3:]), np.concatenate([_dec(x) for x in b[3:].split(';')])))
+            if not same and not (a.startswith('err') and b.startswith('err')):
+                ctx.note(f'MODEL INCONSISTENCY fshiftND vs fshift{len(shape)} on {c}: {a[:60]} / {b[:60]}')
+            ctx.compare('nd_vs_lowdim_model', {'op': 'nd_vs_lowdim_model', 'case': dict(c)}, 'ok', 'ok' if same or (a.startswith('err') and b.startswith('err')) else 'differs',
+                        tags=('model consistency fshiftND = fshift1/fshift2',))
+    ctx.note(f'N-d arrays: largest |real code - Float twin of fshiftND| / max(1, max|x|) in float64 = {worst:.3g}')
+
+
+def oracle_nd(c):
+    """direct oracle on an N-d case given by its generator parameters: every trace (all indices fixed except the one along the axis)
+    of the result is the 1-D scalar fshift of that trace by ITS entry of the shift vector (np.roll for an integer entry)"""
+    from ibldsp.fourier import fshift
+    w64, s_obj, s_flat = build_nd(c)
+    if c['mode'] == 'wrongsize' or s_flat is None:
+        return None
+    shape = tuple(c['shape']); ndim = len(shape); ax = c['axis'] % ndim
+    if shape[ax] < 2:
+        return None
+    for dt in (np.float64, np.float32):
+        w = layout_array(w64.astype(dt), c.get('layout', 'C'))
+        w0 = np.array(w, copy=True)
+        so = s_obj.copy() if isinstance(s_obj, np.ndarray) else s_obj
+        inp = dict(c, dtype=np.dtype(dt).name, w=w0.tolist(), s=np.asarray(s_obj).tolist())
+        try:
+            y = call_fshift(w, so, c['axis'], c.get('call', 'kw'))
+        except Exception as e:  # noqa
+            return inp, f'fshift raised {type(e).__name__}: {e}', 'a shifted array'
+        if y.shape != w0.shape or y.dtype != w0.dtype:
+            return inp, f'result shape {y.shape} dtype {y.dtype}', f'shape {w0.shape} dtype {w0.dtype}'
+        if not np.array_equal(w, w0):
+            return inp, 'input array modified', 'input untouched'
+        wm = np.moveaxis(w0, ax, -1).reshape(-1, shape[ax]); ym = np.moveaxis(y, ax, -1).reshape(-1, shape[ax])
+        sv = np.broadcast_to(np.asarray(s_flat, dtype=float).ravel(), (wm.shape[0],)) if np.ndim(s_flat) else np.full(wm.shape[0], float(s_flat))
+        tol = 4 * _tol(dt, w0)
+        for q in range(wm.shape[0]):
+            si = float(sv[q])
+            ref = np.roll(wm[q], int(si)).astype(float) if si == int(si) else fshift(wm[q].copy(), si).astype(float)
+            d = float(np.max(np.abs(ym[q].astype(float) - ref)))
+            if d > tol:
+                idx = np.unravel_index(q, [dd for k, dd in enumerate(shape) if k != ax] or [1])
+                what = f'np.roll(trace, {int(si)})' if si == int(si) else f'fshift(trace, {si!r}) (1-D scalar shift of that trace)'
+                return inp, (f'trace at the other indices {list(map(int, idx))} of fshift(w, s, axis={c["axis"]}) = {ym[q].tolist()}'), f'{what} = {ref.tolist()}'
+    return None
+
+
+def _freq_cases(ctx):
+    rng = ctx.rng
+    out = []
+    for n in list(range(2, 41)) + [63, 64, 65, 96, 127, 128]:
+        for _ in range(1 if n > 24 else 2):
+            out.append({'op': 'fshift_freq', 'n': n, 'ns': n, 'shift': str(rng.choice(SHIFTS)), 'sig': str(rng.choice(SIGS)), 'seed': int(rng.integers(0, 2 ** 31)),
+                        'cdtype': str(rng.choice(['complex128', 'complex128', 'complex64'])), 'call': str(rng.choice(['kw', 'pos4', 'kwall']))})
+    for n in (4, 5, 8, 9, 16):            # a declared length that does not go with the number of bins (error), or goes with it (n even: n + 1)
+        for dn in (1, -1, 2):
+            if (n + dn) % 2 == 0 and (n + dn) // 2 + 1 == n // 2 + 1:
+                continue      # accepted, but the result then hinges on the sign of a floating-point zero (np.angle(-1 +- 0j) at a bin with an imaginary part)
+            out.append({'op': 'fshift_freq', 'n': n, 'ns': n + dn, 'shift': 'frac', 'sig': 'randn', 'seed': int(rng.integers(0, 2 ** 31)),
+                        'cdtype': 'complex128', 'call': 'kw'})
+    return out
+
+
+def call_fshift_freq(W, s, ns, spelling):
+    from ibldsp.fourier import fshift
+    if spelling == 'pos4':
+        return fshift(W, s, -1, ns)
+    if spelling == 'kwall':
+        return fshift(w=W, s=s, axis=-1, ns=ns)
+    return fshift(W, s, ns=ns)
+
+
+def freq_case(c):
+    """fshift on an already transformed trace: (outcome of the real code, spectrum given, shift).  The complex input is a copy (the
+    code multiplies it in place; only a REAL input is required to stay untouched)."""
+    import scipy.fft
+    x = make_signal(c['n'], c['sig'], c['seed'])
+    s = make_shift(c['n'], c['shift'], c['seed'])
+    W = scipy.fft.rfft(x).astype(c['cdtype'])
+    try:
+        Y = call_fshift_freq(W.copy(), s, c['ns'], c.get('call', 'kw'))
+    except Exception as e:  # noqa
+        return _err_name(e), W, s, x
+    return np.asarray(Y), W, s, x
+
+
+def oracle_freq(c):
+    """the frequency-domain call between the two transforms equals the time-domain call (values; tolerance of the narrower dtype)"""
+    import scipy.fft
+    from ibldsp.fourier import fshift
+    if c['ns'] != c['n']:
+        return None
+    Y, W, s, x = freq_case(c)
+    inp = dict(c, x=[float(v) for v in x], s=s)
+    if isinstance(Y, str):
+        return inp, f'fshift(rfft(x), s, ns=n) raised {Y[4:]}', 'the shifted half spectrum'
+    if Y.shape != W.shape:
+        return inp, f'shape {Y.shape}', f'shape {W.shape} of the half spectrum'
+    y = scipy.fft.irfft(Y.astype(np.complex128), c['n'])
+    ref = fshift(x.copy(), s)
+    tol = (1e-9 if c['cdtype'] == 'complex128' else 2e-5) * max(1.0, float(np.max(np.abs(x)))) * 4
+    if float(np.max(np.abs(y - ref))) > tol:
+        return inp, f'irfft(fshift(rfft(x), {s!r}, ns={c["n"]}), {c["n"]}) = {y.tolist()}', f'fshift(x, {s!r}) = {ref.tolist()}'
+    return None
+
+
+def _corr_freq(ctx):
+    cases = _freq_cases(ctx)
+    lines, runs = [], []
+    for c in cases:
+        Y, W, s, x = freq_case(c)
+        W64 = W.astype(np.complex128)
+        lines.append(f'fshiftfreq {c["ns"]} {_bits(s)} {_bits(W64.real)} {_bits(W64.imag)}')
+        runs.append((c, Y, W, s, x))
+    worst = 0.0
+    for (c, Y, W, s, x), a in zip(runs, ctx.lean(lines)):
+        p = a.split()
+        if isinstance(Y, str) or p[0] != 'ok':
+            impl_s, model_s = (Y if isinstance(Y, str) else 'ok'), ('ok' if p[0] == 'ok' else a[:40])
+        else:
+            Ym = _dec(p[1]) + 1j * _dec(p[2])
+            sc = max(1.0, float(np.max(np.abs(W))))
+            Yc = np.array(Y, dtype=np.complex128)
+            if c['ns'] % 2 == 0 and Ym.shape == Yc.shape:
+                # the imaginary part of the Nyquist bin is not compared: np.angle(-1 +- 0j) is +-pi according to the sign of a
+                # floating-point zero, and every inverse real transform discards that imaginary part
+                Yc[-1] = Yc[-1].real; Ym[-1] = Ym[-1].real
+            e = float(np.max(np.abs(Yc - Ym), initial=0.0)) / sc if Ym.shape == Y.shape else np.inf
+            if c['cdtype'] == 'complex128':
+                worst = max(worst, e)
+            good = Y.shape == W.shape and e <= (TOL64 if c['cdtype'] == 'complex128' else TOL32)
+            impl_s, model_s = ('ok', 'ok') if good else (f'shape {Y.shape}, max |difference| / scale = {e:.3g}', 'ok')
+            if good and oracle_freq(c):
+                impl_s = 'irfft of the result differs from the time-domain call'
+        ctx.compare('fshift_freq', dict(c), impl_s, model_s, nontrivial=c['shift'] != 'zero',
+                    tags=('fshift_freq', 'freq ' + c['cdtype'], 'freq ns=' + ('n' if c['ns'] == c['n'] else 'other'), 'freq call:' + c['call'],
+                          'result:' + ('err' if isinstance(Y, str) else 'ok')))
+    ctx.note(f'frequency-domain entry point: largest |real code - Float twin| / scale in complex128 = {worst:.3g}')
+
+
+def _pmax2_cases(ctx):
+    rng = ctx.rng
+    out = []
+    for _ in range(ctx.n(160, 1200)):
+        a, b = int(rng.integers(1, 7)), int(rng.integers(1, 10))
+        kind = str(rng.choice(['int', 'int', 'edges', 'ties', 'nan', 'float']))
+        if kind == 'float':
+            x = rng.standard_normal((a, b)) * 3
+        else:
+            x = rng.integers(-9, 10, size=(a, b)).astype(float)
+            for i in range(a):
+                u = rng.random()
+                if kind == 'edges' and u < 0.7:
+                    x[i, 0 if u < 0.35 else -1] = 20
+                elif kind == 'ties' and b >= 2:
+                    j, k = rng.integers(0, b, size=2); x[i, j] = x[i, k] = 15
+                elif kind == 'nan' and u < 0.6:
+                    x[i, int(rng.integers(0, b))] = np.nan
+                    if u < 0.2:
+                        x[i, int(rng.integers(0, b))] = np.nan
+        out.append((kind, x))
+    return out
+
+
+def _same_float(u, v, tol):
+    u, v = np.asarray(u, dtype=float), np.asarray(v, dtype=float)
+    if u.shape != v.shape or not np.array_equal(np.isnan(u), np.isnan(v)):
+        return False
+    m = ~np.isnan(u)
+    fin = m & np.isfinite(u) & np.isfinite(v)
+    return bool(np.array_equal(u[m & ~fin], v[m & ~fin]) and np.all(np.abs(u[fin] - v[fin]) <= tol * (1 + np.abs(v[fin]))))
+
+
+def _corr_pmax2(ctx):
+    """the 2-D branch of parabolic_max vs the Float twin of `parabolicMax2` (bit for bit on integer-valued rows, NaN / infinite
+    samples and edge rows included; tolerance on random rows), and row by row vs the 1-D branch of the real code"""
+    from ibldsp.utils import parabolic_max
+    cases = _pmax2_cases(ctx)
+    ans = ctx.lean([f'pmax2 {_rows_bits(x)}' for _, x in cases])
+    for (kind, x), a in zip(cases, ans):
+        desc = {'op': 'pmax2', 'kind': kind, 'x': [[None if np.isnan(v) else float(v) for v in r] for r in x]}
+        try:
+            with np.errstate(all='ignore'):
+                ip, mx = parabolic_max(x.copy())
+                rows = [parabolic_max(r.copy()) for r in x]
+            ip, mx = np.asarray(ip, dtype=float), np.asarray(mx, dtype=float)
+            p = a.split()
+            mip, mmx = _dec(p[1]), _dec(p[2])
+            exact = kind in ('int', 'edges', 'ties', 'nan')
+            curv_ok = True
+            if kind == 'float':
+                for r in x:
+                    im = int(np.argmax(r))
+                    if 0 < im < len(r) - 1 and abs(r[im - 1] - 2 * r[im] + r[im + 1]) <= 1e-3:
+                        curv_ok = False
+            good = (not curv_ok) or (_same_float(ip, mip, 0.0 if exact else 1e-9) and _same_float(mx, mmx, 0.0 if exact else 1e-9))
+            rowwise = _same_float(ip, [float(r[0]) for r in rows], 0.0) and _same_float(mx, [float(r[1]) for r in rows], 0.0)
+            impl_s = 'ok' if good and rowwise else (f'ipeak {ip.tolist()} maxi {mx.tolist()}' + ('' if rowwise else ' (differs from the 1-D call on each row)'))
+            model_s = 'ok' if good and rowwise else f'ipeak {mip.tolist()} maxi {mmx.tolist()}'
+        except Exception as e:  # noqa
+            impl_s, model_s = _err_name(e), a[:60]
+        ctx.compare('pmax2', desc, impl_s, model_s, nontrivial=x.shape[1] >= 3, tags=('pmax2', 'pmax2:' + kind))
+
+
+def compact_wavelet(n, seed):
+    """integer-valued waveform of n samples whose non-zero samples sit in a short central stretch, and an integer delay that keeps the
+    delayed copy (and the correlation peak) inside the window: the domain of theorem corrmax_integer_delay"""
+    r = np.random.default_rng([seed, n, 616])
+    width = int(r.integers(1, max(2, n // 4) + 1))
+    lo = int(r.integers(n // 4, max(n // 4 + 1, n - n // 4 - width + 1)))
+    x = np.zeros(n)
+    x[lo:lo + width] = r.integers(-9, 10, size=width)
+    if not np.any(x):
+        x[lo] = 3.0
+    cands = [m for m in range(-n, n + 1) if 0 <= lo + m and lo + width + m <= n and 0 < n // 2 - m < n - 1]
+    m = int(r.choice(cands)) if cands else 0
+    return x, m
+
+
+def corrmax_case(x, y):
+    from ibldsp.waveforms import wave_shift_corrmax
+    a, b = np.array(x, dtype=float), np.array(y, dtype=float)
+    rs, sh = wave_shift_corrmax(a, b)
+    rs2, sh2 = wave_shift_corrmax(a, b)
+    if float(sh2) != float(sh) or not np.array_equal(np.asarray(rs2), np.asarray(rs)):
+        raise AssertionError('wave_shift_corrmax: second call with the same arrays returned a different result')
+    return np.asarray(rs, dtype=float), float(sh)
+
+
+def oracle_corrmax_int(x, m):
+    """an integer-valued waveform with compact support, delayed by a whole number m of samples without wrapping: the estimate is m and
+    the re-aligned copy is the waveform (theorem corrmax_integer_delay; exact up to float rounding)"""
+    x = np.asarray(x, dtype=float)
+    y = np.roll(x, m)
+    inp = {'op': 'corrmax', 'spike': x.tolist(), 'delay': int(m)}
+    try:
+        rs, sh = corrmax_case(x, y)
+    except Exception as e:  # noqa
+        return inp, f'wave_shift_corrmax(x, np.roll(x, {m})) raised {type(e).__name__}: {e}', f'(x, {m})'
+    if abs(sh - m) > 1e-9:
+        return inp, f'wave_shift_corrmax(x, np.roll(x, {m})) estimates the shift {sh!r}', f'the applied shift {m}'
+    if float(np.max(np.abs(rs - x))) > 1e-9 * max(1.0, float(np.max(np.abs(x)))):
+        return inp, f're-aligned copy {rs.tolist()}', f'the waveform itself {x.tolist()}'
+    return None
+
+
+def _corr_corrmax(ctx):
+    """scipy.signal.correlate(mode='same') = the model's defining sum (external law); wave_shift_corrmax vs the Float twin of
+    `waveShiftCorrmax` (correlation, argmax, parabolic interpolation, zero lag floor(n/2), sign, re-alignment by fshift) on
+    integer-valued compact waveforms delayed by whole samples (the theorem's domain: estimate = delay exactly) and on random short
+    traces (tolerance; skipped when the two largest correlation values are within 1e-9 of each other: argmax is then decided by
+    rounding)"""
+    import scipy.signal
+    rng = ctx.rng
+    lines, meta = [], []
+    for _ in range(ctx.n(120, 800)):
+        n = int(rng.integers(1, 25))
+        a, b = rng.standard_normal(n), rng.standard_normal(n)
+        if rng.random() < 0.5:
+            a, b = np.round(a * 4), np.round(b * 4)
+        lines.append(f'corr {_bits(a)} {_bits(b)}'); meta.append(('corr', a, b, None))
+    for _ in range(ctx.n(160, 1200)):
+        n = int(rng.integers(5, 41))
+        x, m = compact_wavelet(n, int(rng.integers(0, 2 ** 31)))
+        lines.append(f'corrmax {_bits(x)} {_bits(np.roll(x, m))}'); meta.append(('corrmax_int', x, np.roll(x, m), m))
+    for _ in range(ctx.n(80, 600)):
+        n = int(rng.integers(3, 33))
+        a = rng.standard_normal(n) * np.exp(-0.5 * ((np.arange(n) - n / 2) / max(1.0, n / 6)) ** 2)
+        b = np.roll(a, int(rng.integers(-n // 4, n // 4 + 1))) + 0.05 * rng.standard_normal(n)
+        lines.append(f'corrmax {_bits(a)} {_bits(b)}'); meta.append(('corrmax', a, b, None))
+    costs = [len(m_[1]) ** 2 for m_ in meta]
+    ans = _lean_parallel(ctx, lines, costs)
+    for (op, a, b, m), ans_ in zip(meta, ans):
+        p = ans_.split()
+        if op == 'corr':
+            c = scipy.signal.correlate(a, b, mode='same')
+            ok = p[0] == 'ok' and _dec(p[1]).shape == c.shape and np.allclose(_dec(p[1]), c, atol=1e-9 * max(1.0, float(np.max(np.abs(c)))), rtol=0)
+            ctx.compare('corr', {'op': 'corr', 'a': a.tolist(), 'b': b.tolist()}, 'ok', 'ok' if ok else ans_[:80], nontrivial=len(a) > 1, tags=('ext:correlate same',))
+            continue
+        desc = {'op': op, 'spike': a.tolist(), 'spike2': b.tolist()}
+        if m is not None:
+            desc['delay'] = int(m)
+        try:
+            rs, sh = corrmax_case(a, b)
+            msh, mrs = float(_dec(p[1])[0]), _dec(p[2])
+            c = scipy.signal.correlate(a, b, mode='same')
+            top = np.sort(c)[::-1]
+            ambiguous = len(top) > 1 and abs(top[0] - top[1]) <= 1e-9 * max(1.0, abs(top[0]))
+            im = int(np.argmax(c))
+            flat = 0 < im < len(c) - 1 and abs(c[im - 1] - 2 * c[im] + c[im + 1]) <= 1e-6 * max(1.0, abs(c[im]))
+            sc = max(1.0, float(np.max(np.abs(b))))
+            good = ambiguous or flat or (abs(sh - msh) <= 1e-7 * (1 + abs(msh)) and mrs.shape == rs.shape and float(np.max(np.abs(rs - mrs), initial=0.0)) <= 1e-6 * sc * len(a))
+            impl_s, model_s = ('ok', 'ok') if good else (f'shift {sh!r} re-aligned {rs.tolist()}', f'shift {msh!r} re-aligned {mrs.tolist()}')
+            if good and m is not None and oracle_corrmax_int(a, m):
+                impl_s = oracle_corrmax_int(a, m)[1]
+        except Exception as e:  # noqa
+            impl_s, model_s = _err_name(e), 'ok'
+        ctx.compare(op, desc, impl_s, model_s, nontrivial=True, tags=('corrmax', 'corrmax:' + ('integer delay of a compact waveform' if m is not None else 'random')))
+
+
+def _corr_plan(ctx):
+    """the stage list (the one the tie proves equal to the translated source) executed by the model's interpreter gives, bit for bit,
+    the twin of `fshiftCore` (theorem fshift_plan, here on the Float instance), and the list without the data transform gives nothing"""
+    rng = ctx.rng
+    lines, meta = [], []
+    for n in (2, 3, 4, 5, 8, 9, 16):
+        x = rng.standard_normal(n); s = float(rng.uniform(-n, n))
+        for kind in ('scalar', 'pertrace', 'freq'):
+            lines.append(f'plan {kind} -1 {n} {_bits(s)} {_bits(x)}'); meta.append((kind, n))
+        lines.append(f'fshift1 -1 S {_bits(s)} {_bits(x)}'); meta.append(('ref', n))
+    ans = ctx.lean(lines)
+    for k in range(0, len(ans), 4):
+        ref = ans[k + 3]
+        ok = ans[k] == ref and ans[k + 1] == ref and ans[k + 2] == 'none' and ref.startswith('ok ')
+        ctx.compare('plan', {'op': 'plan', 'n': meta[k][1]}, 'ok', 'ok' if ok else f'{ans[k][:40]} | {ans[k + 2][:40]} | {ref[:40]}', tags=('stage list = fshiftCore (Float)',))
+
+
 def correspondence(ctx):
+    import time
     _check_source_constants(ctx)
-    _corr_externals(ctx)
-    _corr_fshift(ctx)
-    _corr_block_lengths(ctx)
-    _corr_pmax(ctx)
-    _corr_delay(ctx)
+    spent = []
+    for f in (_corr_externals, _corr_fshift, _corr_block_lengths, _corr_pmax, _corr_nd, _corr_freq, _corr_pmax2, _corr_corrmax, _corr_plan,
+              _corr_delay):
+        t0 = time.time()
+        f(ctx)
+        spent.append(f'{f.__name__[6:]} {time.time() - t0:.1f}s')
+    ctx.note('correspondence wall time per part: ' + ', '.join(spent))
 
 
 # ---------------------------------------------------------------------------------------------
@@ -1157,7 +1640,10 @@ def oracle_pmax(x):
     """parabolic_max: exact on samples of a parabola around an interior maximum; edge maxima returned as they are"""
     from ibldsp.utils import parabolic_max
     x = np.asarray(x, dtype=float)
-    ip, mx = parabolic_max(x.copy())
+    try:
+        ip, mx = parabolic_max(x.copy())
+    except Exception as e:  # noqa
+        return {'x': x.tolist()}, f'parabolic_max(x) raised {type(e).__name__}: {e}', 'the interpolated position and value of the maximum'
     im = int(np.argmax(x))
     if im == 0 or im == len(x) - 1:
         if float(ip) != im or float(mx) != x[im]:
@@ -1178,7 +1664,12 @@ def oracle_pmax2d(x):
     """the 2-D branch of parabolic_max treats every row like the 1-D branch"""
     from ibldsp.utils import parabolic_max
     x = np.asarray(x, dtype=float)
-    ip, mx = parabolic_max(x.copy())
+    try:
+        with np.errstate(all='ignore'):
+            ip, mx = parabolic_max(x.copy())
+    except Exception as e:  # noqa
+        return ({'x': [[None if np.isnan(v) else float(v) for v in r] for r in x]}, f'parabolic_max(x) raised {type(e).__name__}: {e}',
+                'one interpolated position and value per row')
     for i, row in enumerate(x):
         im = int(np.argmax(row))
         if im == 0 or im == len(row) - 1:
@@ -1332,7 +1823,7 @@ def _fresh(code_obj):
 def _size(inp):
     if 'sequence' in inp:
         return sum(int(np.size(c.get('w', c.get('x', c.get('spike', 0))))) for c in inp['sequence'])
-    for k in ('x', 'w'):
+    for k in ('x', 'w', 'spike'):
         if k in inp:
             return int(np.size(inp[k]))
     return 10 ** 9
@@ -1379,6 +1870,14 @@ def search(ctx, reasons):
                                   'how': 'harness/props/c07.py run_sequence(input["sequence"]) (dtype / layout / call give the form of x)'})
         elif c.get('op') == 'pmax2d':
             add(guarded(oracle_pmax2d, c['x']), 'harness/props/c07.py oracle_pmax2d(x)')
+        elif c.get('op') == 'pmax2':
+            add(guarded(oracle_pmax2d, [[np.nan if v is None else v for v in r] for r in c['x']]), 'harness/props/c07.py oracle_pmax2d(x)')
+        elif c.get('op') == 'fshiftnd':
+            add(guarded(oracle_nd, c), 'harness/props/c07.py oracle_nd(input) (shape / axis / mode / sshape / seed are the generator parameters of build_nd; w, s = its arrays)')
+        elif c.get('op') == 'fshift_freq':
+            add(guarded(oracle_freq, c), 'harness/props/c07.py oracle_freq(input)')
+        elif c.get('op') in ('corrmax', 'corrmax_int') and 'delay' in c:
+            add(guarded(oracle_corrmax_int, c['spike'], c['delay']), 'harness/props/c07.py oracle_corrmax_int(input["spike"], input["delay"])')
         elif c.get('op') == 'delay':
             r = guarded(lambda: delay_case(c['n'], c['wavelet'], c['width'], c['centre'], c['shift'], np.dtype(c['dtype']).type)[0])
             if r:
@@ -1436,7 +1935,34 @@ def search(ctx, reasons):
                     break
             if hit:
                 break
-    if 'pmax' in ops or 'pmax2d' in ops or 'delay' in ops or 'cluster' in ops or not found:
+    if 'fshiftnd' in ops or not found:
+        hit = False
+        for shape in ([2, 2, 2], [2, 3, 2], [3, 2, 2], [2, 2, 3], [1, 3, 2], [2, 3, 1], [2, 2, 2, 2]):
+            for axis in list(range(len(shape))) + [-1, -2, -len(shape)]:
+                for mode in ('pertrace_int', 'pertrace', 'scalar'):
+                    for sshape in ND_SSHAPES:
+                        if shape[axis] < 2 or hit:
+                            continue
+                        res = guarded(oracle_nd, {'op': 'fshiftnd', 'shape': shape, 'axis': axis, 'mode': mode, 'sshape': sshape, 'seed': 3,
+                                                  'layout': 'C', 'call': 'kw'})
+                        if res:
+                            add(res, 'harness/props/c07.py oracle_nd(input)'); hit = True
+    if 'fshift_freq' in ops or not found:
+        hit = False
+        for n in range(2, 10):
+            for sk in ('int', 'frac', 'half'):
+                res = None if hit else guarded(oracle_freq, {'op': 'fshift_freq', 'n': n, 'ns': n, 'shift': sk, 'sig': 'ramp', 'seed': 1, 'cdtype': 'complex128', 'call': 'kw'})
+                if res:
+                    add(res, 'harness/props/c07.py oracle_freq(input)'); hit = True
+    if 'corrmax' in ops or 'corrmax_int' in ops or 'corr' in ops or 'pmax' in ops or 'pmax2' in ops or not found:
+        hit = False
+        for n in range(5, 14):
+            for sd in range(6):
+                x, m_ = compact_wavelet(n, sd)
+                res = None if hit else guarded(oracle_corrmax_int, x, m_)
+                if res:
+                    add(res, 'harness/props/c07.py oracle_corrmax_int(input["spike"], input["delay"])'); hit = True
+    if 'pmax' in ops or 'pmax2' in ops or 'pmax2d' in ops or 'delay' in ops or 'cluster' in ops or not found:
         r = np.random.default_rng(5)
         hit = False
         for n in range(1, 9):
@@ -1447,6 +1973,12 @@ def search(ctx, reasons):
                     break
             if hit:
                 break
+        hit = False
+        for n in range(1, 6):
+            for rows in ([list(range(n))], [list(range(n))[::-1]], [list(range(n)), [0] * n], [[1, 3, 2, 0, 1][:n], list(range(n))]):
+                res = None if hit else guarded(oracle_pmax2d, np.array(rows, dtype=float))
+                if res:
+                    add(res, 'harness/props/c07.py oracle_pmax2d(x)'); hit = True
     if 'delay' in ops or 'cluster' in ops or not found:
         for case in _delay_cases(np.random.default_rng(11), 200):
             r = guarded(lambda: delay_case(*case[:5], np.dtype(case[5]).type)[0])
@@ -1580,6 +2112,15 @@ def replay(ctx, rep):
         if i.get('op') == 'fshift_long':
             r = oracle_long(i)
             print('oracle_long:', r[1:] if r else None); return r is not None
+        if i.get('op') == 'fshiftnd':
+            r = oracle_nd({k: v for k, v in i.items() if k not in ('w', 's', 'dtype')})
+            print('oracle_nd:', r[1:] if r else None); return r is not None
+        if i.get('op') == 'fshift_freq':
+            r = oracle_freq({k: v for k, v in i.items() if k not in ('x', 's')})
+            print('oracle_freq:', r[1:] if r else None); return r is not None
+        if i.get('op') == 'corrmax':
+            r = oracle_corrmax_int(i['spike'], i['delay'])
+            print('oracle_corrmax_int:', r[1:] if r else None); return r is not None
         if 'w' in i:
             from ibldsp.fourier import fshift
             w = np.array(i['w'], dtype=i['dtype']); s = np.array(i['s'], dtype=float) if isinstance(i['s'], list) else i['s']
@@ -1611,7 +2152,8 @@ def replay(ctx, rep):
                 r = oracle_1d(x, shifts, x.dtype)
             print('oracle:', r[1:] if r else None); return r is not None
         if 'x' in i:
-            r = oracle_pmax2d(i['x']) if np.ndim(i['x']) == 2 else oracle_pmax(i['x'])
+            xx = [[np.nan if v is None else v for v in r] for r in i['x']] if np.ndim(i['x']) == 2 else i['x']
+            r = oracle_pmax2d(xx) if np.ndim(i['x']) == 2 else oracle_pmax(xx)
             print('oracle_pmax:', r[1:] if r else None); return r is not None
     except Exception as e:  # noqa
         print('replay raised', type(e).__name__, e)
